@@ -263,10 +263,15 @@ def read_grid(task: dict) -> dict:
                     else:
                         pr = lambda ex: {"id": ex["id"] + 1000}  # noqa: E731
                 ds = handles[cfg.get("handle", "reopened")]
-                status, val = _timed(lambda: readers.read_ids(ds, iface, split, take=take, process_record=pr, **kw))
+                stall = cfg.get("stall")
+                if stall and (n <= stall[0] or nshards[split] <= 2 * (fp if isinstance(fp, int) else 2) + 4):
+                    continue        # a stalled pass only says something when shards remain beyond the read-ahead
+                status, val = _timed(lambda: readers.read_ids(ds, iface, split, take=take, process_record=pr,
+                                                              stall=stall, **kw))
                 out["reads"] += 1
                 desc = (f"{fmt}/{comp} {task['history']} split={split} ({n} examples, {nshards[split]} shards) "
-                        f"{iface} shuffle={shuffle} file_parallelism={fp} repeat={cfg['repeat']}")
+                        f"{iface} shuffle={shuffle} file_parallelism={fp} repeat={cfg['repeat']}" +
+                        (f" consumer busy for {stall[1]} s after example {stall[0]}" if stall else ""))
                 if status == "hang":
                     out["problems"].append(("hang", desc + ": no result within the watchdog", cfg))
                     return out
@@ -406,6 +411,10 @@ def read_grid(task: dict) -> dict:
     return out
 
 
+MANY_SHARDS = [("Create", []), ("BeginFiller", [[]])] + [("Write", [0, "train", "None", "good"]) for _ in range(36)] + \
+              [("ExitFiller", [0]), ("SessionDone", [])]
+
+
 def grid_tasks(ctx: Ctx, mode: str, configs, formats=None, lockstep=None):
     formats = formats or [("fb", ""), ("npz", ""), ("tfrec", ""), ("fb", "LZ4"), ("tfrec", "GZIP"), ("npz", "ZIP"),
                           ("fb", "GZIP")]
@@ -417,7 +426,7 @@ def grid_tasks(ctx: Ctx, mode: str, configs, formats=None, lockstep=None):
             if ctx.quick and (hi + fi) % 2 and hname != "nested_and_continued":
                 continue
             tasks.append({"labels": labels, "history": hname, "fmt": fmt, "compression": comp, "mode": mode,
-                          "configs": configs, "eps": 2 + (hi % 2), "lockstep": lockstep})
+                          "configs": configs, "eps": 2 + (hi % 2), "lockstep": lockstep, "index": len(tasks)})
     return tasks
 
 
@@ -449,10 +458,15 @@ def judge_obs(ctx: Ctx, obs, prop: str, kind_of=lambda o: o["mode"]):
 
 
 def run_grid(ctx: Ctx, prop: str, mode: str, configs, problem_kinds=("hang", "raised", "process_record", "stream-ended"),
-             lockstep=None):
+             lockstep=None, many_shards_configs=None):
     from .. import rustext
     rustext.build()
     tasks = grid_tasks(ctx, mode, configs, lockstep=lockstep)
+    if many_shards_configs:
+        for fmt, comp in (("fb", ""), ("npz", ""), ("tfrec", "")) + (() if ctx.quick else (("fb", "LZ4"), ("tfrec", "GZIP"))):
+            tasks.append({"labels": MANY_SHARDS, "history": "many_shards", "fmt": fmt, "compression": comp,
+                          "mode": mode, "configs": many_shards_configs, "eps": 2, "lockstep": None,
+                          "index": len(tasks)})
     try:
         outs = H.run_histories(tasks, fn=read_grid)
     finally:
